@@ -1,9 +1,9 @@
 """Worker process of C30: compiles units and reports every observable stage.
 
-stdin : {"warmup": [unit...], "units": [unit...], "texts": bool}
+stdin : {"units": [unit...]}   compiled in the given order in this one process
         unit = {"kind": "c", "src": text, "target", "level", "opt"} | {"kind": "ir", "desc": genir description, ...}
-stdout: one JSON line {"results": [{"ir", "selected", "allocated", "object", "image"} (texts or digests) | {"error": ..}],
-        "hashseed": ..., "pid": ...}
+stdout: one JSON line {"results": [{"ir", "selected", "allocated", "object", "image", "spills", "callee_saved"} | {"error": ..}],
+        "hashseed": ..., "pid": ..., "aslr": bool}
 The process is started by vf/props/c30.py with an explicit environment (PYTHONHASHSEED, with/without setarch -R).
 """
 
@@ -14,12 +14,14 @@ import sys
 
 
 def compile_unit(u):
-    from . import cgstage, genir
+    from . import cgstage
     from ppci.api import ir_to_object, optimize
 
     if u["kind"] == "c":
         m = cgstage.c_frontend(u["src"], u["target"])
     else:
+        from . import genir  # imports hypothesis: only when needed
+
         m = genir.build(u["desc"])
     optimize(m, level=u["level"])
     res = {"ir": cgstage.ir_text(m)}
@@ -31,27 +33,54 @@ def compile_unit(u):
     img, why = cgstage.link_image(obj)
     res["image"] = img if img is not None else "link refused: " + why
     res["spills"] = obs.spills
+    res["callee_saved"] = obs.callee_saved
     return res
 
 
+ADDR_NO_RANDOMIZE = 0x0040000
+
+
+def personality():
+    try:
+        with open("/proc/self/personality") as f:
+            return int(f.read().strip(), 16)
+    except (OSError, ValueError):
+        return None
+
+
+def ensure_aslr():
+    """C30_ASLR=1: make sure address-space randomisation is ON in this process (the check runs under setarch -R and
+    the flag is inherited): clear ADDR_NO_RANDOMIZE and re-exec; the new image is then laid out randomly."""
+    if os.environ.get("C30_ASLR") != "1" or os.environ.get("C30_REEXEC") == "1":
+        return
+    cur = personality()
+    if cur is None or not cur & ADDR_NO_RANDOMIZE:
+        return
+    import ctypes
+
+    libc = ctypes.CDLL(None, use_errno=True)
+    if libc.personality(ctypes.c_ulong(cur & ~ADDR_NO_RANDOMIZE)) == -1:
+        return
+    os.environ["C30_REEXEC"] = "1"
+    os.execv(sys.executable, [sys.executable, "-m", "vf.c30_worker"])
+
+
 def main():
+    ensure_aslr()
     logging.disable(logging.WARNING)
     repo = os.environ.get("VERIF_REPO", "/repo")
     if repo != "/repo":
         sys.path.insert(0, repo)
     job = json.load(sys.stdin)
-    for u in job.get("warmup", []):
-        try:
-            compile_unit(u)
-        except Exception:
-            pass
     out = []
     for u in job["units"]:
         try:
             out.append(compile_unit(u))
         except Exception as e:
             out.append({"error": "%s: %s" % (type(e).__name__, str(e)[:200])})
-    json.dump({"results": out, "hashseed": os.environ.get("PYTHONHASHSEED"), "pid": os.getpid()}, sys.stdout)
+    cur = personality()
+    json.dump({"results": out, "hashseed": os.environ.get("PYTHONHASHSEED"), "pid": os.getpid(),
+               "aslr": None if cur is None else not cur & ADDR_NO_RANDOMIZE}, sys.stdout)
     sys.stdout.write("\n")
 
 
